@@ -442,7 +442,7 @@ def check_pdb(case, ctx, tmp):
         no = None
     if no != exp["sgno"]:
         ctx.fail("pdb/space-group", "CRYST1 symbol %r stored as %r which resolves to %r, file names Sg%d" % (exp["symbol"], al.sgname, no, exp["sgno"]))
-    elif al.sgname != exp["sgname"]:
+    elif al.sgname.lower() != exp["sgname"]:      # (letter case of the stored PDB symbol is not part of the property)
         ctx.fail("pdb/sgname-spelling", "CRYST1 symbol %r stored as %r, expected %r" % (exp["symbol"], al.sgname, exp["sgname"]))
     if len(al.atom) != len(exp["atoms"]):
         ctx.fail("pdb/atom-count", "%d atoms read, %d in the file" % (len(al.atom), len(exp["atoms"])))
